@@ -9,6 +9,7 @@ import Asts.Driver.Watch
 import Asts.Driver.Annot
 import Asts.Driver.Defaults
 import Asts.Driver.Codec
+import Asts.Driver.Hijack
 import Asts.Driver.Patch
 open Asts.Driver
 
@@ -31,6 +32,7 @@ def dispatch (engine : String) (line : String) : String :=
     | "annot" => AnnotDrv.stepAnnot cas obs
     | "defaults" => DefaultsDrv.stepDefaults cas obs
     | "codec" => CodecDrv.stepCodec cas obs
+    | "hijack" => HijackDrv.stepHijack cas obs
     | "patch" => stepPatch cas obs
     | _ => "unknown-engine\tok\tbad"
   | _ => "bad-line\tok\tbad"
